@@ -21,7 +21,7 @@ type Behaviour struct {
 	H       int    // height of the lie / checkpoint index / message count before the disconnect / fork depth
 	N       int    // lighterFork: branch length
 	Variant string // liarHeaders: pow|unlinked ; noServices: cf|witness ; liarCFHeaders: inconsistent|consistent ; liarCFCheckpt: only|consistent
-	Tx      string // reaction to a transaction inv: "" (ignore) | accept | reject-nogetdata | reject
+	Tx      string // reaction to a transaction inv: "" (ignore) | accept | reject-nogetdata | reject | confirm-after-release
 }
 
 func (b Behaviour) String() string {
@@ -68,14 +68,15 @@ type Peer struct {
 	cur      *session
 	Sessions int32
 	fakeHash map[int32]chainhash.Hash
+	Release  chan struct{} // confirm-after-release: closed by the scenario when the late answers may flow
 
 	// counters (atomic)
-	GotGetHeaders, GotGetCFHeaders, GotGetCFCheckpt, GotGetCFilters, GotGetData, GotInvTx int32
-	Handshakes                                                                            int32
-	sentTotal                                                                             int32
-	didDisconnect                                                                         int32
-	Lied                                                                                  int32           // served at least one false message
-	barrier                                                                               <-chan struct{} // when set: the first headers reply waits for it
+	GotGetHeaders, GotGetCFHeaders, GotGetCFCheckpt, GotGetCFilters, GotGetData, GotInvTx, GotTx int32
+	Handshakes                                                                                   int32
+	sentTotal                                                                                    int32
+	didDisconnect                                                                                int32
+	Lied                                                                                         int32           // served at least one false message
+	barrier                                                                                      <-chan struct{} // when set: the first headers reply waits for it
 }
 
 type session struct {
@@ -509,10 +510,35 @@ func (s *session) handle(m wire.Message) {
 				gd := wire.NewMsgGetData()
 				gd.AddInvVect(iv)
 				s.send(gd)
+			case "confirm-after-release":
+				// first announcement: ask for the transaction and accept it silently;
+				// later announcements (rebroadcasts): answer only once released, then
+				// say the transaction is already in the chain
+				gd := wire.NewMsgGetData()
+				gd.AddInvVect(iv)
+				if atomic.LoadInt32(&p.GotInvTx) == 1 {
+					s.send(gd)
+					continue
+				}
+				go func() {
+					select {
+					case <-p.Release:
+					case <-s.done:
+						return
+					case <-time.After(5 * time.Second):
+						return
+					}
+					s.send(gd)
+				}()
 			}
 		}
 
 	case *wire.MsgTx:
+		if p.B.Tx == "confirm-after-release" && atomic.AddInt32(&p.GotTx, 1) > 1 {
+			rj := wire.NewMsgReject(wire.CmdTx, wire.RejectDuplicate, "transaction already exists")
+			rj.Hash = msg.TxHash()
+			s.send(rj)
+		}
 		if p.B.Tx == "reject" {
 			rj := wire.NewMsgReject(wire.CmdTx, wire.RejectInvalid, "bad-txns-inputs-missingorspent")
 			rj.Hash = msg.TxHash()
